@@ -501,7 +501,7 @@ def conf_terms(cases, observations):
             ops_t.append(op_term(op, hints))
             obs_t.append(obt)
         flags.append(good)
-        terms.append("conf_case %s [%s] [%s]" % (cfg_term(c["cfg"]), ";".join(ops_t), ";".join(obs_t)) if good else "false")
+        terms.append("%s %s [%s] [%s]" % ("conf_case_x" if c.get("xsem") else "conf_case", cfg_term(c["cfg"]), ";".join(ops_t), ";".join(obs_t)) if good else "false")
     return terms, flags
 
 
@@ -892,4 +892,82 @@ def outage_histories(r, thorough):
         case["nomodel"] = True
         case["cfg"]["settle_ms"] = 600
         cases.append(case)
+    return cases
+
+
+def cut_histories(r, thorough):
+    """directed (C05: a client connection dropped at every byte offset of its request stream): a member's request stream
+    (JOIN / BROADCAST with payload / LEAVE / JOIN) is cut at an offset and the connection dropped; the complete frames
+    before the cut take effect, the torn one does not (the model sees the whole frames only), the user is cleaned up and
+    the others are told; ends with the audit.  quick: sampled offsets, thorough: every offset."""
+    import srvmon
+    cases = []
+    mod = None
+    stream = (frame("JOIN", [("id", 11), ("channel", "!c2@localhost")]) +
+              frame("BROADCAST", [("id", 12), ("channel", "!c1@localhost"), ("length", 9), ("qos", 1)], b"pay\nload!") +
+              frame("LEAVE", [("id", 13), ("channel", "!c1@localhost")]) +
+              frame("JOIN", [("id", 14), ("channel", "!c3@localhost")]))
+    offsets = list(range(0, len(stream) + 1)) if thorough else sorted(set(r.sample(range(0, len(stream) + 1), 14) + [0, len(stream)]))
+    # byte offsets at which whole frames end
+    ends = []
+    pos = 0
+    for part in (frame("JOIN", [("id", 11), ("channel", "!c2@localhost")]),
+                 frame("BROADCAST", [("id", 12), ("channel", "!c1@localhost"), ("length", 9), ("qos", 1)], b"pay\nload!"),
+                 frame("LEAVE", [("id", 13), ("channel", "!c1@localhost")]), frame("JOIN", [("id", 14), ("channel", "!c3@localhost")])):
+        pos += len(part)
+        ends.append(pos)
+    for off in offsets:
+        cfg = base_cfg(r, r.choice([None, None, MOD_CONFIGS[4]]))
+        cfg.update({"max_clients": 10, "max_subs": 10, "max_conns": 16, "max_channels": 100, "max_inflight": 10})
+        g = Gen(r, cfg)
+        ks = _login(g, ["alice", "bob", "carol"])
+        for u in ("alice", "bob"):
+            g.send(ks[u], frame("JOIN", [("id", g.rid()), ("channel", "!c1@localhost")]), [])
+        whole = max([e for e in ends if e <= off] + [0])
+        if whole:
+            g.send(ks["alice"], stream[:whole], ["ok"] * 6)
+        if off > whole:
+            g.ops.append({"t": "send", "k": ks["alice"], "bytes": stream[whole:off].hex(), "script": [], "split": "head"})
+        g.ops.append({"t": "hangup", "k": ks["alice"], "script": ["ok"] * 6})
+        del g.conns[ks["alice"]]
+        cases.append({"cfg": cfg, "ops": g.ops + srvmon.audit_ops(g)})
+    return cases
+
+
+def oversize_histories(r, thorough):
+    """directed: a small message buffer and long names, so that some unsolicited frames (EVENTs naming a long user in a
+    long channel) do not fit: the receiving connection ends through the loop's error path (nothing of the batch is written,
+    its user is cleaned up, which may cascade), replies that do not fit are replaced by RESPONSE_TOO_LARGE.  Compared with
+    Model/ServerX.step_x; ends with the audit."""
+    import srvmon
+    cases = []
+    for _ in range(40 if thorough else 8):
+        cfg = base_cfg(r, None)
+        cfg.update({"max_clients": 10, "max_subs": 10, "max_conns": 16, "max_channels": 100, "max_inflight": 10,
+                    "max_message": r.choice([200, 240, 280]), "max_payload": 256})
+        g = Gen(r, cfg)
+        long_user = "u" * r.choice([70, 90, 110])
+        big = "!" + "c" * r.choice([70, 90, 110]) + "@localhost"
+        ks = _login(g, ["alice", "bob", long_user, "dave"])
+        order = r.sample(["alice", "bob", long_user], 3)
+        for u in order:
+            g.send(ks[u], frame("JOIN", [("id", g.rid()), ("channel", "!c1@localhost")]), [])
+        for u in order:
+            g.send(ks[u], frame("JOIN", [("id", g.rid()), ("channel", big)]), [])
+            if r.random() < 0.5:
+                g.send(ks[r.choice(order)], frame("MEMBERS", [("id", g.rid()), ("channel", big)]), [])
+        g.send(ks["dave"], frame("JOIN", [("id", g.rid()), ("channel", "!c1@localhost")]), [])
+        for _ in range(r.randint(3, 8)):
+            u = r.choice(["alice", "bob", long_user, "dave"])
+            x = r.random()
+            if x < 0.3:
+                g.send(ks[u], frame("LEAVE", [("id", g.rid()), ("channel", r.choice([big, "!c1@localhost"]))]), [])
+            elif x < 0.6:
+                g.send(ks[u], frame("MEMBERS", [("id", g.rid()), ("channel", big)]), [])
+            elif x < 0.8:
+                pl = b"x" * r.choice([1, 200])
+                g.send(ks[u], frame("BROADCAST", [("id", g.rid()), ("channel", r.choice([big, "!c1@localhost"])), ("length", len(pl))], pl), [])
+            else:
+                g.send(ks[u], frame("CHANNELS", [("id", g.rid())]), [])
+        cases.append({"cfg": cfg, "ops": g.ops + srvmon.audit_ops(g), "xsem": True})
     return cases
